@@ -5,3 +5,6 @@
 import XC.Model.C12_Tea
 import XC.Model.C12_Xtea
 import XC.Model.C12_Blowfish
+import XC.Model.C12_Cast5
+import XC.Model.C12_Twofish
+import XC.Model.C12_Rc2
